@@ -24,7 +24,8 @@ RULE = ("workloads W1 cold first call, W2 warm call + miss, W3 call after the fu
         "file-system call under the cache directory for every k, after the last one, and after each page-boundary prefix "
         "of every write crossing a 4096-byte file offset; each crashed directory is then recovered five times in fresh "
         "processes (plain Memory, with expires_after(days=1), with a user-defined callback reading metadata['duration'] / ['time'], and through call_and_shelve(x).get() with check_call_in_cache compared against what the call then does - with a silent and with a verbose (verbose=11) Memory); in the thorough tier a third of them are recovered by a process that is itself killed at every second of its own mutating calls, and recovered again; distinct_nontrivial counts distinct (workload, crash "
-        "point, crash mode) whose process was really killed by the shim")
+        "point, crash mode) whose process was really killed by the shim"
+        " For func_code.py - the one file written in place - nine sub-page prefixes of its first write per workload are tried as well.")
 ASSUMPTIONS = [
     "crash model: process death on a local file system - directory operations atomic, torn writes at page granularity; for func_code.py (written in place) also nine sub-page prefixes per workload, as file systems with a smaller write granularity can leave them",
     "single-threaded writer; 'after call k' equals 'before call k+1' as a file-system state and is enumerated once",
